@@ -380,9 +380,20 @@ theorem strict_of_save_table_norm (d : SDoc) (out : Bytes) (d' : SDoc)
     unfold revisions
     simp only [hsec, htl, hsize, Bool.not_true, Bool.false_eq_true, if_false, hhead, hobjStart, hfilt, hwalk,
       List.reverse_nil, List.nil_append]
+  have hks : Dict.get (normD d'.trailer) kSize = some (.int ((d.maxId : Int) + 1)) := by
+    have : kSize = SIZE := rfl
+    rw [this, normD_get, hsz']; rfl
+  have hallsz : ((List.filter (fun _ => true) (d.objects.map fun p => (p.1, nfObj p.2))).all
+      fun p => decide (((p.1.1 : Nat) : Int) < (d.maxId : Int) + 1)) = true := by
+    rw [List.all_eq_true]
+    intro q hq
+    obtain ⟨p, hp, rfl⟩ := List.mem_map.mp (List.mem_filter.mp hq).1
+    have := (hwf.range p hp).2
+    simp only [decide_eq_true_eq]; omega
   unfold strictLoad
   simp only [hlast, hrev, bne_self_eq_false, Bool.false_eq_true, if_false, mergeRevs, List.length_singleton,
-    List.filterMap_cons, List.filterMap_nil]
+    List.filterMap_cons, List.filterMap_nil, hks]
+  simp only [List.contains_nil, Bool.not_false, List.nil_append, hallsz, Bool.not_true, Bool.false_eq_true, if_false]
   simp [mergeRevs]
 
 /-- (reals included) **R2 on a written cross-reference stream**, appended to any prefix and read inside any
@@ -575,9 +586,23 @@ theorem strict_of_save_stream_norm (d : SDoc) (out : Bytes) (d' : SDoc)
     have := (hwf.range p hp).2
     have hne : ¬ (p.1.1 = d.maxId + 1) := by omega
     simp [hne]
+  obtain ⟨_, fS, _, _, f5⟩ := streamTrailer_facts [] d hnd
+    (.int (xrefStreamContent (streamSecs (xmapStream [] d) (d.maxId + 1))).length)
+  rw [Dict_set_same _ _ _ f5] at fS
+  have hks : Dict.get (normD (streamTrailer [] d)) kSize = some (.int ((d.maxId + 1 + 1 : Nat) : Int)) := by
+    have : kSize = SIZE := rfl
+    rw [this, normD_get, fS]; rfl
+  have hallsz : ((List.filter (fun p => ![d.maxId + 1].contains p.fst.fst) (d.objects.map fun p => (p.1, nfObj p.2))).all
+      fun p => decide (((p.1.1 : Nat) : Int) < ((d.maxId + 1 + 1 : Nat) : Int))) = true := by
+    rw [List.all_eq_true]
+    intro q hq
+    obtain ⟨p, hp, rfl⟩ := List.mem_map.mp (List.mem_filter.mp hq).1
+    have := (hwf.range p hp).2
+    simp only [decide_eq_true_eq]; omega
   unfold strictLoad
   simp only [hlast, hrev, bne_self_eq_false, Bool.false_eq_true, if_false, mergeRevs, List.length_singleton,
-    List.filterMap_cons, List.filterMap_nil, htr']
+    List.filterMap_cons, List.filterMap_nil, htr', hks]
+  simp only [List.contains_nil, Bool.not_false, List.nil_append, List.append_nil, hallsz, Bool.not_true, Bool.false_eq_true, if_false]
   have hall : ∀ (a b : Nat) (o : Obj), ((a, b), o) ∈ d.objects → ¬ a = d.maxId + 1 := by
     intro a b o hm
     have := (hwf.range _ hm).2
